@@ -89,6 +89,15 @@ def ref_bpi_int(v, bits):
     return n
 
 
+def ref_le_digits(n, bits):
+    """least significant first base-2**bits digits of n (bits >= 1), no padding"""
+    out = bytearray()
+    while n:
+        out.append(n % (1 << bits))
+        n //= 1 << bits
+    return bytes(out)
+
+
 def expected_len(v, bits, width, mw):
     """length of the encoding, or None when the value must be rejected"""
     if width >= 0:
@@ -311,6 +320,16 @@ def run_bpi_int(ctx, U, values, bits_list, use_model=True, oracle=True):
                     d = {"fn": "bpi_int", "value": v, "bits": bits, "observed": r}
                     if r != "%x" % ref_bpi_int(v, bits):
                         V("BitPaddedInt(int) differs from re-reading the int's bytes as bits-bit groups", d)
+                    # bigendian only says how as_str() renders: the number read from an int is the same
+                    try:
+                        x = BPI(v, bits, False)
+                        rl = "%x" % x
+                        if rl == r and bits >= 1 and x.as_str(width=-1, minwidth=0) != ref_le_digits(ref_bpi_int(v, bits), bits):
+                            rl += " as_str=" + x.as_str(width=-1, minwidth=0).hex()
+                    except Exception as e:
+                        rl = "!" + type(e).__name__
+                    if rl != "%x" % ref_bpi_int(v, bits):
+                        V("BitPaddedInt(int, bigendian=False) differs from the value of the int's bytes / renders wrongly", dict(d, bigendian=False, observed=rl))
                     nb = (v.bit_length() + 7) // 8
                     want = "1" if all(((v >> (8 * i)) & 0xFF) < (1 << bits) for i in range(nb)) else "0"
                     if h != want:
@@ -916,22 +935,53 @@ def run_tags(ctx, payloads, nmixed=3):
             ctx.oracle_cases += 1
             ctx.count("tag:" + layout_name(l))
             ctx.case(b"t%d." % i + p if i < len(UNIFORM) else b"tm" + json.dumps(l, sort_keys=True).encode() + p)
-    # a header whose size bytes are not syncsafe must be rejected
+    run_headers(ctx)
+
+
+HEADER_ALPHABET = (0x00, 0x01, 0x7F, 0x80, 0xFF)
+HEADER_BODY_MAX = 1 << 22     # a declared size up to this is backed by that many (padding) bytes
+
+
+def oracle_header(V, ver, size4):
+    """the tag size of an ID3v2.2 / 2.3 / 2.4 header is a 4-byte syncsafe integer: a field with any top bit set does
+    not fit and must be rejected (MutagenError), never read with the bit masked off; a clean field is that number"""
     import mutagen
-    for bad in (b"\x00\x00\x00\x80", b"\x80\x00\x00\x00", b"\x00\xff\x00\x00"):
-        raw = b"ID3\x04\x00\x00" + bad + b"\x00" * 64
-        try:
-            from mutagen.id3 import ID3
-            ID3(io.BytesIO(raw))
-            r = "loaded"
-        except mutagen.MutagenError:
-            r = "rejected"
-        except Exception as e:
-            r = "!" + type(e).__name__
-        ctx.oracle_cases += 1
-        ctx.case(b"hdr" + bad)
+    from mutagen.id3 import ID3
+    valid = all(b < 0x80 for b in size4)
+    want = ref_decode(size4, 7, True)
+    body = want if valid and want <= HEADER_BODY_MAX else 64
+    raw = b"ID3" + bytes([ver, 0, 0]) + size4 + b"\x00" * body
+    try:
+        t = ID3(io.BytesIO(raw))
+        r = "loaded size=%d" % (t.size - 10)
+    except mutagen.MutagenError:
+        t, r = None, "rejected"
+    except Exception as e:
+        t, r = None, "!" + type(e).__name__
+    d = {"fn": "header", "version": ver, "size": size4.hex(), "observed": r}
+    if not valid:
         if r != "rejected":
-            V("tag: header size with padding bit set is not rejected", {"fn": "header", "size": bad.hex(), "observed": r})
+            V("tag: header size with padding bit set is not rejected", d)
+            return False
+    elif t is not None:
+        if t.size - 10 != want:
+            V("tag: header size (BitPaddedInt) differs from the syncsafe value of the size field", d)
+            return False
+    elif body == want or r != "rejected":
+        V("tag: header with a valid syncsafe size is not loaded", d)
+        return False
+    return True
+
+
+def run_headers(ctx):
+    V = _viol(ctx)
+    for ver in (2, 3, 4):
+        for t in itertools.product(HEADER_ALPHABET, repeat=4):
+            size4 = bytes(t)
+            oracle_header(V, ver, size4)
+            ctx.oracle_cases += 1
+            ctx.count("header-size:v2.%d" % ver)
+            ctx.case(b"hdr%d" % ver + size4)
 
 
 def tag_payloads(rng, maxlen, nrandom):
@@ -1161,24 +1211,35 @@ def run(ctx):
 
 
 def search(ctx, broken):
-    """a proof or the correspondence broke: search the implementation alone, with larger budgets"""
+    """a proof or the correspondence broke: search the implementation alone, with larger budgets (the quick tier
+    stops starting new stages after about a minute: run() has already covered the same spaces at its own budgets)"""
+    import time
     before = _viol(ctx).total()
     U = _impl()
     rng = ctx.rng
     lat = lattice_values()
     bits18 = list(range(1, 9))
-    run_negative(ctx, use_model=False, thorough=True)
-    run_to_str(ctx, U, lat + random_values(rng, 500), bits18, WIDTHS + [(-1, 6), (7, 4), (10, 4)], use_model=False, tag="search-lattice")
-    run_unsynch(ctx, U, alphabet_strings(6), use_model=False, tag="search")
-    run_unsynch(ctx, U, [p + bytes([x]) + q for x in range(256) for p in (b"", b"\xff", b"\xff\x00", b"\x00\xff") for q in (b"", b"\xff")], use_model=False, tag="search-every-byte")
-    run_unsynch(ctx, U, random_strings(rng, 3000, 3000), use_model=False, tag="search-random")
-    run_bpi_int(ctx, U, list(range(1 << 14)) + lat, [0] + bits18, use_model=False)
-    run_bpi_bytes(ctx, U, list(alphabet_strings(5)), [0] + bits18, use_model=False)
-    if _viol(ctx).total() == before:
-        run_to_str(ctx, U, range(1 << 16), bits18, WIDTHS, use_model=False, tag="search-range")
-        run_tags(ctx, tag_payloads(rng, 4, 600))
-    ctx.notes["search"] = ("implementation-only search (to_str over v < 2^16 + lattice x bits 1..8 x widths x byte order, negatives under watchdog, "
-                           "unsynch over all alphabet strings to length 6 + 3000 random, tags) found %d failing inputs" % (_viol(ctx).total() - before))
+    deadline = time.time() + (1500 if ctx.thorough else 50)
+    stages = [
+        ("BitPaddedInt(int) below 2^14 + lattice", lambda: run_bpi_int(ctx, U, list(range(1 << 14)) + lat, [0] + bits18, use_model=False)),
+        ("BitPaddedInt(bytes) alphabet to length 5", lambda: run_bpi_bytes(ctx, U, list(alphabet_strings(5)), [0] + bits18, use_model=False)),
+        ("negatives under watchdog", lambda: run_negative(ctx, use_model=False, thorough=True)),
+        ("to_str lattice + 500 random", lambda: run_to_str(ctx, U, lat + random_values(rng, 500), bits18, WIDTHS + [(-1, 6), (7, 4), (10, 4)], use_model=False, tag="search-lattice")),
+        ("tags", lambda: run_tags(ctx, tag_payloads(rng, 2, 300))),
+        ("unsynch 3000 random", lambda: run_unsynch(ctx, U, random_strings(rng, 3000, 3000), use_model=False, tag="search-random")),
+        ("unsynch alphabet to length 6", lambda: run_unsynch(ctx, U, alphabet_strings(6), use_model=False, tag="search")),
+        ("to_str below 2^16" if ctx.thorough else "to_str 2^14 .. 3*2^13 (below 2^14: run)",
+         lambda: run_to_str(ctx, U, range(1 << 16) if ctx.thorough else range(1 << 14, 3 << 13), bits18, WIDTHS, use_model=False, tag="search-range")),
+    ]
+    done, skipped = [], []
+    for name, stage in stages:
+        if time.time() > deadline or (_viol(ctx).total() > before and len(done) >= 4):
+            skipped.append(name)
+            continue
+        stage()
+        done.append(name)
+    ctx.notes["search"] = ("implementation-only search (%s%s) found %d failing inputs" %
+                           ("; ".join(done), ("; not run (time budget / already found): " + "; ".join(skipped)) if skipped else "", _viol(ctx).total() - before))
 
 
 def replay(ctx, payload):
@@ -1216,7 +1277,9 @@ def replay(ctx, payload):
     if fn == "tag":
         return not oracle_layout(V, bytes.fromhex(d["payload"]), OLD_VARIANTS[d["variant"]])
     if fn == "header":
-        run_tags(ctx, [])
+        if "version" in d:
+            return not oracle_header(V, d["version"], bytes.fromhex(d["size"]))
+        run_headers(ctx)
         return V.total() > 0
     run(ctx)
     return bool(ctx.violations or ctx.disagreements)
